@@ -4,7 +4,7 @@ from ..rules import noise, drivers, jump, once
 META = {
     "title": "Quantum-jump stepping completes every time step once, in order, and terminates",
     "technique": "static analysis: per-path event language of NoisyMPSBackendImpl.sweep_complete against a four-"
-                 "state automaton, field-ownership (who-may-write) of the step bookkeeping, who-may-call",
+                 "state automaton, field-ownership (who-may-write) of the step bookkeeping, who-may-call; polynomial normal form of every store to the jump gap; run-loop path conditions",
     "design_ref": "DESIGN.md §5 C18, A.4",
     "explanation": "JUMP-ownership: _timestep_index is written only by timestep_complete (+= 1), current_time only "
                    "by sweep_complete (from target_time), target_time only from target_times[idx+1], "
